@@ -38,6 +38,8 @@ type Config struct {
 	MaxPaths  int
 	ReplayDir string
 	Verbose   bool
+	Tier      string
+	Known     map[string]bool
 }
 
 type Engine struct {
